@@ -201,6 +201,34 @@ func init() {
 					}
 					c.Case(0, true, printParse(c, "ellipsis", &ref.Msg{Stream: 1, Function: 1, W: 0, Dir: "H->E", Item: n}))
 				}})
+			// variable names are case-sensitive: names that differ only in letter case are different variables
+			caseSets := [][]string{{"lot", "Lot"}, {"lot", "LOT", "lOt"}, {"v0", "V0"}, {"x", "X", "x1"}, {"aB", "Ab", "AB"}, {"wafer_id", "Wafer_Id"}}
+			sp = append(sp, h.Space{Name: "names-differing-only-in-case", Count: uint64(len(caseSets) * 4),
+				Describe: func(i uint64) interface{} { return fmt.Sprintf("variables %v in shape %d", caseSets[i/4], i%4) },
+				Run: func(c *h.Ctx, i uint64) {
+					ns := caseSets[i/4]
+					var n *ref.Node
+					switch i % 4 {
+					case 0: // same item
+						n = &ref.Node{Kind: ref.U2, Elems: []ref.Elem{{U: 7}}}
+						for _, v := range ns {
+							n.Elems = append(n.Elems, ref.Elem{Var: v})
+						}
+					case 1: // across list items
+						n = ref.List()
+						for _, v := range ns {
+							n.Children = append(n.Children, &ref.Node{Kind: ref.I1, Elems: []ref.Elem{{Var: v}}})
+						}
+					case 2: // item variable and value variables
+						n = ref.List(ref.Var(ns[0]))
+						for _, v := range ns[1:] {
+							n.Children = append(n.Children, ref.AsciiVar(v, 0, -1))
+						}
+					default: // nested
+						n = ref.List(ref.List(ref.Var(ns[0])), &ref.Node{Kind: ref.BOOLEAN, Elems: []ref.Elem{{Var: ns[1]}}})
+					}
+					c.Case(0, true, printParse(c, "case-names", &ref.Msg{Stream: 1, Function: 1, W: 0, Dir: "H->E", Item: n}))
+				}})
 			// ASCII variables with large bounds (the bounds are data of the template, not a check on a literal)
 			bnds := []int{0, 1, 255, 256, 65535, 65536, 16777214, 16777215, 16777216, 16777217, 1 << 31, 1<<31 + 1, 1 << 40, 1<<62 - 1, 1 << 62}
 			sp = append(sp, h.Space{Name: "ascii-variable-bounds", Count: uint64(len(bnds) * len(bnds)),
